@@ -1,4 +1,52 @@
-From LD Require Import Base F32 Data Model Ops Bucket Eval EvalFacts.
-Theorem C07_scan_one_of_listed : forall b sum wvs wv, scan b sum wvs = Some wv -> In wv wvs.
-Proof. exact scan_in. Qed.
-Print Assumptions C07_scan_one_of_listed.
+(* C07 Rollout variation selection is a stable, monotone partition (Flocq binary32) *)
+From LD Require Import Base F32 Data Model Ops Bucket Eval EvalFacts F32Facts Rollout SegSpec.
+From Flocq Require Import Core BinarySingleNaN.
+
+Theorem C07_first_below : forall b sum wvs,
+  scan_idx b sum wvs = find_index (fun t => f32_ltb b t) (thresholds sum wvs).
+Proof. exact scan_first_below. Qed.
+Print Assumptions C07_first_below.
+
+Theorem C07_scan_is_that_bucket : forall b sum wvs,
+  scan b sum wvs = match scan_idx b sum wvs with Some i => nth_error wvs i | None => None end.
+Proof. exact scan_is_nth. Qed.
+Print Assumptions C07_scan_is_that_bucket.
+
+(* whatever the weights sum to, exactly one of the listed buckets is served *)
+Theorem C07_one_of_listed : forall b wvs wv, chosen_bucket b wvs = Some wv -> In wv wvs.
+Proof. exact chosen_bucket_in. Qed.
+Print Assumptions C07_one_of_listed.
+
+Theorem C07_zero_weight_only_fallback : forall b sum wvs wv,
+  f32_ltb b sum = false -> scan b sum wvs = Some wv -> wv_weight wv <> 0%Z.
+Proof. exact zero_weight_not_scanned. Qed.
+Print Assumptions C07_zero_weight_only_fallback.
+
+Theorem C07_bucket_not_below_zero : forall input, f32_ltb (hash_to_bucket input) f32_zero = false.
+Proof. exact bucket_nonneg. Qed.
+Print Assumptions C07_bucket_not_below_zero.
+
+Theorem C07_grow_keeps : forall b sum pre wv post wv' post',
+  is_finite b = true -> is_finite sum = true ->
+  sums_finite sum (pre ++ wv :: post) -> sums_finite sum (pre ++ wv' :: post') ->
+  (wv_weight wv <= wv_weight wv')%Z ->
+  scan_idx b sum (pre ++ wv :: post) = Some (List.length pre) ->
+  scan_idx b sum (pre ++ wv' :: post') = Some (List.length pre).
+Proof. exact grow_keeps. Qed.
+Print Assumptions C07_grow_keeps.
+
+Theorem C07_segment_weight_monotone : forall b w w',
+  is_finite b = true -> small w -> small w' -> (w <= w')%Z ->
+  f32_ltb b (weight_frac w) = true -> f32_ltb b (weight_frac w') = true.
+Proof. exact segment_weight_monotone. Qed.
+Print Assumptions C07_segment_weight_monotone.
+
+Theorem C07_bucket_is_finite : forall input, is_finite (hash_to_bucket input) = true.
+Proof. exact bucket_finite. Qed.
+Print Assumptions C07_bucket_is_finite.
+
+(* the hypotheses of C07_grow_keeps are satisfiable *)
+Theorem C07_hypotheses_nonvacuous :
+  sums_finite f32_zero [mkwvar 0 60000 false; mkwvar 1 0 false; mkwvar 2 40000 true].
+Proof. exact sums_finite_example. Qed.
+Print Assumptions C07_hypotheses_nonvacuous.
